@@ -395,6 +395,10 @@ DoDevPoll(st, op) ==
   ELSE IF row.ustate = "unused" THEN Fail(st, "authorization_pending", "dev_pending")
   ELSE IF row.ustate = "rejected" THEN Fail(st, "access_denied", "dev_denied")
   ELSE IF st.now > row.exp THEN Fail(st, "expired_token", "dev_expired")
+  \* the store is keyed by the signature, so a code forged from it finds the session; only the strategy's validation of the
+  \* complete code (the HMAC over its key part) tells it from the genuine one
+  \* (error names as the strategy reports them: a malformed token, resp. an undecodable key part; the statement says "refused")
+  ELSE IF "forge" \in DOMAIN op THEN Fail(st, IF op.forge = "sig_only" THEN "invalid_token" ELSE "error", "dev_forged")
   ELSE IF row.client # op.client THEN Fail(st, "invalid_grant", "dev_wrong_client")
   ELSE LET withRT == CanIssueRT(st, row.scopes, op.client)
            np == NewPair(st, row.rid, row.client, row.req, row.scopes, row.aud, Subject, withRT, 0)
